@@ -87,6 +87,14 @@ func (c05Suite) Gen(rng *Rng, tier string, w *bufio.Writer, stats *Stats) {
 	for _, q := range c05TotalityShapes {
 		emit("totality", "q "+payload(q, nil))
 	}
+	for _, q := range c05CaseKeyShapes {
+		emit("casekeys", "q "+payload(q, nil))
+		stats.Inc("casekeys")
+	}
+	for i := 0; i < npath; i++ {
+		emit("casekeys", "q "+payload(genCaseKeyQuery(rng), nil))
+		stats.Inc("casekeys")
+	}
 	for i := 0; i < npath; i++ {
 		emit("pathshape", "q "+payload(genPathShapeQuery(rng), nil))
 		stats.Inc("pathshapes")
@@ -725,6 +733,100 @@ var c05ParamCases = []c05ParamCase{
 	{"create-with-map-parameter", "CREATE (n:NodeKind1 $props) RETURN n", func() map[string]any {
 		return map[string]any{"props": map[string]any{"name": "x", "tags": []string(nil)}}
 	}},
+	// parameter VALUES of library types: they belong to the caller too (nil vs empty is part of the comparison)
+	{"properties-fresh-nil-map", "MATCH (n $props) RETURN n", func() map[string]any {
+		return map[string]any{"props": graph.NewProperties()}
+	}},
+	{"properties-fresh-nil-map-create", "CREATE (n:NodeKind1 $props) RETURN n", func() map[string]any {
+		return map[string]any{"props": &graph.Properties{}}
+	}},
+	{"properties-with-values-nil-tracking", "MATCH (n $props) RETURN n", func() map[string]any {
+		return map[string]any{"props": &graph.Properties{Map: map[string]any{"name": "x", "tags": []string(nil), "n": 1}}}
+	}},
+	{"properties-set-and-deleted", "MATCH (n) WHERE n.name = $name SET n += $props RETURN n", func() map[string]any {
+		p := graph.NewProperties()
+		p.Set("a", 1)
+		p.Set("b", "two")
+		p.Delete("c")
+		return map[string]any{"props": p, "name": "x"}
+	}},
+	{"properties-nil-pointer", "MATCH (n $props) RETURN n", func() map[string]any {
+		return map[string]any{"props": (*graph.Properties)(nil)}
+	}},
+	{"kinds-and-ids", "MATCH (n) WHERE id(n) IN $ids AND n.kinds = $kinds RETURN n", func() map[string]any {
+		return map[string]any{"ids": []graph.ID(nil), "kinds": graph.Kinds{graph.StringKind("NodeKind1")}, "one": graph.ID(1)}
+	}},
+	{"time-pointers-and-slices", "MATCH (n) WHERE n.t < $t AND n.name IN $names RETURN n", func() map[string]any {
+		t := time.Unix(1700000000, 0).UTC()
+		return map[string]any{"t": &t, "names": []string{}, "empty": []any{}, "nilslice": []any(nil), "nested": map[string]any{"m": map[string]any(nil), "s": []int64{}}}
+	}},
+}
+
+// keys that differ only in case (ASCII and Unicode case pairs) in every map position, values as PARAMETERS so that the
+// order in which the items are walked shows in the parameter numbering
+var c05CaseKeyShapes = []string{
+	"MATCH (n {name: $lower, Name: $upper}) RETURN n",
+	"MATCH (n:NodeKind1 {name: $a, NAME: $b, Name: $c, nAmE: $d}) RETURN n",
+	"MATCH (a)-[r:EdgeKind1 {weight: $a, Weight: $b}]->(b {id: $c, ID: $d, Id: $e}) RETURN r",
+	"MATCH (n) WHERE n.name = $n SET n += {value: $a, Value: $b, VALUE: $c} RETURN n",
+	"CREATE (n:NodeKind1 {name: $a, Name: $b, kind: $c, KIND: $d}) RETURN n",
+	"CREATE (a:NodeKind1 {k: $a, K: $b})-[:EdgeKind1 {w: $c, W: $d}]->(b:NodeKind2 {k: $e, K: $f}) RETURN a",
+	"MATCH (n {straße: $a, STRASSE: $b, Straße: $c}) RETURN n",
+	"MATCH (n {ǆ: $a, ǅ: $b, Ǆ: $c}) RETURN n",
+	"MATCH (n {é: $a, É: $b, σ: $c, Σ: $d, ς: $e}) RETURN n",
+	"MATCH (n {name: 'a', Name: 'b', NAME: 'c'}) RETURN n",
+	"MATCH p = (a {x: $a, X: $b})-[:EdgeKind1*1..2 {y: $c, Y: $d}]->(b) RETURN p",
+	"MATCH (n {a: $p1, A: $p2, b: $p3, B: $p4, c: $p5, C: $p6}) RETURN n",
+}
+
+func genCaseKeyQuery(rng *Rng) string {
+	bases := []string{"name", "value", "objectid", "k", "é", "straße", "σ"}
+	variant := func(b string, i int) string {
+		switch i % 3 {
+		case 0:
+			return b
+		case 1:
+			return strings.ToUpper(b)
+		default:
+			r := []rune(b)
+			return strings.ToUpper(string(r[:1])) + string(r[1:])
+		}
+	}
+	np := 0
+	mapOf := func() string {
+		b := Pick(rng, bases)
+		n := 2 + rng.Intn(2)
+		var items []string
+		for i := 0; i < n; i++ {
+			k := variant(b, i)
+			if k == b && i > 0 {
+				k = b + "_"
+			}
+			np++
+			items = append(items, fmt.Sprintf("%s: $p%d", k, np))
+		}
+		if rng.Chance(1, 2) {
+			np++
+			items = append(items, fmt.Sprintf("%s: $p%d", Pick(rng, xlGenProps), np))
+		}
+		for i := len(items) - 1; i > 0; i-- {
+			j := rng.Intn(i + 1)
+			items[i], items[j] = items[j], items[i]
+		}
+		return "{" + strings.Join(items, ", ") + "}"
+	}
+	switch rng.Intn(5) {
+	case 0:
+		return "MATCH (n " + mapOf() + ") RETURN n"
+	case 1:
+		return "MATCH (a " + mapOf() + ")-[r:EdgeKind1 " + mapOf() + "]->(b) RETURN a, r"
+	case 2:
+		return "MATCH (n) WHERE id(n) = 1 SET n += " + mapOf() + " RETURN n"
+	case 3:
+		return "CREATE (n:NodeKind1 " + mapOf() + ") RETURN n"
+	default:
+		return "MATCH (a:NodeKind1 " + mapOf() + ") MATCH (a)-[:EdgeKind1*1..]->(b " + mapOf() + ") RETURN b"
+	}
 }
 
 // ---------------------------------------------------------------- queries with several path variables
@@ -832,65 +934,81 @@ func c05KindMapperContract(i int) string {
 	a, b := fmt.Sprintf("FreshKind%dA", i), fmt.Sprintf("FreshKind%dB", i)
 	var text string
 	goroutines := c05Concurrent
-	switch i % 3 {
+	switch i % 6 {
 	case 0:
 		text = fmt.Sprintf("CREATE (n:%s) RETURN n", a)
 	case 1:
 		text = fmt.Sprintf("CREATE (n:%s:%s)-[:%sE]->(m:%s) RETURN n", a, b, a, a)
-	default:
+	case 2:
 		text = fmt.Sprintf("CREATE (n:%s:%s) RETURN n", a, a)
 		goroutines = 1
+	// already registered and fresh kinds mixed, in every order: the ids must come back in the order of the labels
+	case 3:
+		text = fmt.Sprintf("CREATE (n:%s:NodeKind1) RETURN n", a)
+	case 4:
+		text = fmt.Sprintf("CREATE (n:NodeKind1:%s:NodeKind2:%s) RETURN n", a, b)
+	default:
+		text = fmt.Sprintf("CREATE (n:%s:User:%s)-[:EdgeKind1]->(m:Group:%s:Computer) RETURN n", b, a, a)
 	}
-	outs := make([]c05Outcome, goroutines)
+	translate := func() c05Outcome {
+		m, err, pp := parseQuery(text)
+		if err != nil || pp != "" {
+			return c05Outcome{xlOutcome: xlOutcome{Status: "err", Msg: "parse"}}
+		}
+		return c05Translate(m, mapper, nil)
+	}
+	// first call (registers), a sequential repeat, then the concurrent batch: all byte-equal
+	first := translate()
+	outs := []c05Outcome{translate()}
+	conc := make([]c05Outcome, goroutines)
 	var wg sync.WaitGroup
 	start := make(chan struct{})
 	for g := 0; g < goroutines; g++ {
 		wg.Add(1)
 		go func(g int) {
 			defer wg.Done()
-			m, err, pp := parseQuery(text)
 			<-start
-			if err != nil || pp != "" {
-				outs[g] = c05Outcome{xlOutcome: xlOutcome{Status: "err", Msg: "parse"}}
-				return
-			}
-			outs[g] = c05Translate(m, mapper, nil)
+			conc[g] = translate()
 		}(g)
 	}
 	close(start)
 	wg.Wait()
+	outs = append(outs, conc...)
 	cls, detail := "ok", ""
-	for g := 1; g < goroutines; g++ {
-		if outs[g].key() != outs[0].key() {
-			cls, detail = "kindmapper-contract", fmt.Sprintf("goroutine %d disagrees with goroutine 0: %s", g, firstTextDiff(outs[0].key(), outs[g].key()))
+	for g, o := range outs {
+		if o.key() != first.key() {
+			cls, detail = "kindmapper-contract", fmt.Sprintf("call %d disagrees with the first call: %s", g+2, firstTextDiff(first.key(), o.key()))
 			break
 		}
 	}
 	// the table: one id per kind, one kind per id, ids dense 1..n
-	if cls == "ok" {
-		n := len(mapper.KindToID)
-		maxID := int16(0)
-		for id := range mapper.IDToKind {
-			if id > maxID {
-				maxID = id
-			}
-		}
-		switch {
-		case len(mapper.IDToKind) != n:
-			cls, detail = "kindmapper-contract", fmt.Sprintf("%d kinds but %d ids: a kind was registered more than once", n, len(mapper.IDToKind))
-		case int(maxID) != n:
-			cls, detail = "kindmapper-contract", fmt.Sprintf("ids are not dense: %d kinds, highest id %d", n, maxID)
-		case outs[0].Status == "ok" && n == base:
-			cls, detail = "kindmapper-contract", "CREATE with fresh kinds registered nothing"
-		}
-		for kind, id := range mapper.KindToID {
-			if back, ok := mapper.IDToKind[id]; !ok || !back.Is(kind) {
-				cls, detail = "kindmapper-contract", fmt.Sprintf("kind %s has id %d but that id belongs to %v", kind, id, back)
-			}
+	consistent := true
+	n := len(mapper.KindToID)
+	maxID := int16(0)
+	for id := range mapper.IDToKind {
+		if id > maxID {
+			maxID = id
 		}
 	}
+	switch {
+	case len(mapper.IDToKind) != n:
+		consistent, cls, detail = false, "kindmapper-contract", fmt.Sprintf("%d kinds but %d ids: a kind was registered more than once", n, len(mapper.IDToKind))
+	case int(maxID) != n:
+		consistent, cls, detail = false, "kindmapper-contract", fmt.Sprintf("ids are not dense: %d kinds, highest id %d", n, maxID)
+	case first.Status == "ok" && n == base:
+		consistent, cls, detail = false, "kindmapper-contract", "CREATE with fresh kinds registered nothing"
+	}
+	for kind, id := range mapper.KindToID {
+		if back, ok := mapper.IDToKind[id]; !ok || !back.Is(kind) {
+			consistent, cls, detail = false, "kindmapper-contract", fmt.Sprintf("kind %s has id %d but that id belongs to %v", kind, id, back)
+		}
+	}
+	if cls == "kindmapper-contract" && consistent {
+		// the table is right, only the ORDER of the returned ids differs between the registering call and later calls
+		cls = "kindmapper-id-order"
+	}
 	return fmt.Sprintf("cls=%s st=%s site=InMemoryKindMapper.AssertKinds runs=%d ms=0 label=kindmapper:%s min=%s detail=%s",
-		cls, outs[0].Status, goroutines, strings.ReplaceAll(text, " ", "_"), jsonQuote(text), jsonQuote(detail))
+		cls, first.Status, len(outs)+1, strings.ReplaceAll(text, " ", "_"), jsonQuote(text), jsonQuote(detail))
 }
 
 // ---------------------------------------------------------------- kind mapper race probe (child process)
